@@ -268,3 +268,7 @@ mod tests {
         quickcheck(prop as fn(_, _) -> _)
     }
 }
+
+#[cfg(libp2p_verif)]
+#[path = "verif_c40.rs"]
+pub mod verif_c40;
